@@ -17,6 +17,7 @@ import (
 var expectedMiss = map[string]string{
 	"seeded/C06-a": "targets the steps form, whose range is not decided by design (needs a relational loop invariant)",
 	"seeded/C07-a": "replaces the segment search of the step interpolation by a binary search on the truncated input: which segment is selected is not decided by design (relational); inside the chosen segment the expression stays monotone",
+	"seeded/C15-c": "cursor-based delete that removes the neighbouring fan's entry: key discipline of the store is C14's subject (C14 R-bucket / R-results report it); C15's rules concern when data is loaded and saved",
 	"seeded/C12-b": "targets the nearest-neighbour choice inside util.FindClosest, which is not decided by design (functional correctness of the search)",
 }
 
